@@ -501,7 +501,7 @@ ASSUMPTIONS = [
     "T8 soundness of Verus 0.2026.09.13 + Z3, Kani 0.68 + CBMC 6.11, rustc; usize is 64-bit",
     "T9 file length < 2^62, allocations succeed and never exceed isize::MAX bytes",
     "Dropped from the verified text: doc comments, #[inline]/#[allow] attributes, Debug/serde derives, Display/Error impls, from_path*, parallel.rs, id_desc() (str::splitn over the unstable Pattern trait)",
-    "Rewrites applied mechanically by the extractor and listed per function: R7 for-in-&mut -> iter_mut, R8 for -> loop+next, R9 byte-string literal -> array, R10 assert! -> if/panic, R11 .all(f) -> its loop, R12 `?` -> match/From, R13 named tail, R14 closure tuple parameter, R15 trait impl -> inherent impl (owned-record iterators), R16 .nth(K) unrolled",
+    "Rewrites applied mechanically by the extractor and listed per function: R7 for-in-&mut -> iter_mut, R8 for -> loop+next, R9 byte-string literal -> array, R10 assert! -> if/panic, R11 .all(f) -> its loop, R12 `?` -> match/From, R13 named tail, R14 closure tuple parameter, R15 trait impl -> inherent impl (owned-record iterators), R16 .nth(K) unrolled, R17 loop{if c{break}..} -> while !c {..}; ghost text follows renamed locals (//@local)",
 ]
 
 
